@@ -105,9 +105,9 @@ Theorem C01_tables_tie :
   (forall n, k_const n = repeat (u8 n) (N.to_nat G.kConstantLength)) /\
   (G.auth_table = [([1], "sha1.New 12 nil"); ([3], "sha256.New 16 nil"); ([2], "md5.New nil"); ([], "nil fmt.Errorf")]%string
    /\ auth_params 1 = Some (1, 12%nat) /\ auth_params 3 = Some (3, 16%nat) /\ auth_params 2 = Some (2, 0%nat)) /\
-  (G.integrity_table = [([0], "nil fmt.Errorf"); ([1], "hmac.New sha1.New g.K 1 12 nil"); ([2], "hmac.New md5.New g.K 1 nil");
-                        ([4], "hmac.New sha256.New g.K 1 16 nil"); ([], "nil fmt.Errorf")]%string
+  (G.integrity_table = [([0], "nil fmt.Errorf"); ([1], "hmac.New sha1.New _.K 1 12 nil"); ([2], "hmac.New md5.New _.K 1 nil");
+                        ([4], "hmac.New sha256.New _.K 1 16 nil"); ([], "nil fmt.Errorf")]%string
    /\ integrity_params 1 = Some (Some (1, 12%nat)) /\ integrity_params 2 = Some (Some (2, 16%nat))
    /\ integrity_params 4 = Some (Some (3, 16%nat))) /\
-  G.confidentiality_table = [([0], "nil fmt.Errorf"); ([1], "16 g.K 2 ipmi.NewAES128CBC"); ([], "nil fmt.Errorf")]%string.
+  G.confidentiality_table = [([0], "nil fmt.Errorf"); ([1], "16 _.K 2 ipmi.NewAES128CBC"); ([], "nil fmt.Errorf")]%string.
 Proof. exact (conj tie_k_constant (conj tie_auth_table (conj tie_integrity_table tie_confidentiality_table))). Qed.
